@@ -106,6 +106,7 @@ def gen(t, tier):
         sc['procs'] = procs
         sc['ops'] = [_gen_defrag(t)] if t.chance(0.5) else []
     if mode == 'conc':
+        sc['threads'] = bool(t.chance(0.3))     # writers are threads sharing one cache object instead of processes
         # let waiters' retry timers fire while the holder is still running (otherwise a waiter only ever wakes up after the
         # holder has left unlock() completely)
         sc['eager'] = bool(t.chance(0.6))
@@ -341,9 +342,16 @@ def _run_conc(sc, tape, b, name, probes):
     in_bundle = {}       # bundle base -> set of procs currently inside a mutating call on it
     overlap = [0]
 
+    shared_cache = []       # threads of one server process share one cache object (sc['threads'])
+
     def proc_fn(pi, ops):
         def fn():
-            cache = C.make_cache(b)
+            if sc.get('threads'):
+                if not shared_cache:
+                    shared_cache.append(C.make_cache(b))
+                cache = shared_cache[0]
+            else:
+                cache = C.make_cache(b)
             for i, op in enumerate(ops):
                 what = 'process %d op#%d %s' % (pi, i, M._opstr(op))
                 try:
@@ -418,8 +426,9 @@ def _run_conc(sc, tape, b, name, probes):
     v = None
     with w:
         w.fs.buffer_size = sc['bufsize']
+        server = w.new_proc('server') if sc.get('threads') else None
         for pi, ops in enumerate(sc['procs']):
-            sched.spawn(proc_fn(pi, ops), 'w%d' % pi, w.new_proc('p%d' % pi))
+            sched.spawn(proc_fn(pi, ops), 'w%d' % pi, server or w.new_proc('p%d' % pi))
         outcome = w.run_tasks()
         for t in sched.tasks:
             if t.exc is not None:
